@@ -326,6 +326,7 @@ class Trace:
                     elif op[0] == "despawn":
                         e = int(op[1])
                         for k_ in [k_ for k_ in maps if k_[1] == e]:
+                            pre_dead.add((k_[0], maps[k_]))     # the adopted pre-spawned entity is despawned with it: a later mapping to it finds it dead
                             del maps[k_]      # the mapping is consumed once the entity leaves the client
                         follows.pop(e, None)
                         for k_ in [k_ for k_, v_ in follows.items() if v_ == e]:
@@ -337,6 +338,7 @@ class Trace:
                     elif op[0] == "unmark":
                         e = int(op[1])
                         for k_ in [k_ for k_ in maps if k_[1] == e]:
+                            pre_dead.add((k_[0], maps[k_]))
                             del maps[k_]
                         if spec_marked.get(e):
                             spec_marked[e] = False
@@ -351,6 +353,8 @@ class Trace:
                         if c in authorized and cfg.get("policy", "all") != "all" and e in spec_marked:
                             spec_vis[(c, e)] = op[3] == "1"
                             if op[3] == "0":
+                                if (c, e) in maps:
+                                    pre_dead.add((c, maps[(c, e)]))
                                 maps.pop((c, e), None)
                 pending_sops = []
                 ran = False
